@@ -220,6 +220,48 @@ def structure_mutant(rng, root, nmut=None):
     return kinds
 
 
+# Generator exclusions, each named after a listed finding of C30 (known/C30.txt). The loader aborts on these
+# shapes, which would otherwise end almost every generated case at the same few known defects and keep the
+# rest of the loader unexplored. They narrow the *workload*; the witnesses under known/C30/ keep replaying them.
+_INT_ATTRS = {'nr', 'indirect', 'templateParameter', 'size', 'offset', 'container', 'arg', 'arg2'}
+_TEXT_ELEMS = {'alloc': 'x_alloc', 'dealloc': 'x_free', 'realloc': 'x_realloc', 'use': 'x_use', 'call': 'x_call',
+               'prefix': 'P', 'suffix': 'S', 'importer': 'imp', 'noreturn': 'false', 'check': 'T', 'suppress': 'T',
+               'exporter': None}
+
+
+def sanitize(root, avoid=('strtoint', 'null-text', 'direction-index')):
+    """in-place; returns the set of exclusions that actually changed something"""
+    import re
+    hit = set()
+    for e in root.iter():
+        if 'strtoint' in avoid:
+            for a in list(e.attrib):
+                if a in _INT_ATTRS:
+                    v = e.get(a)
+                    if a == 'nr' and v in ('any', 'variadic'):
+                        continue
+                    if a == 'container' and e.tag != 'returnValue' and e.tag != 'iterator':
+                        continue
+                    if a in ('arg', 'arg2') and e.tag not in ('call',):
+                        continue
+                    if not re.match(r'^\d{1,8}$', v or ''):
+                        e.set(a, '1')
+                        hit.add('strtoint')
+        if 'direction-index' in avoid and e.tag == 'arg' and 'indirect' in e.attrib:
+            if e.get('indirect') not in ('0', '1', '2'):
+                e.set('indirect', '1')
+                hit.add('direction-index')
+        if 'null-text' in avoid and e.tag in _TEXT_ELEMS and not (e.text or '').strip() and _TEXT_ELEMS[e.tag]:
+            e.text = _TEXT_ELEMS[e.tag]
+            hit.add('null-text')
+        if 'null-text' in avoid and e.tag in ('memory', 'resource'):
+            for c in e:         # every child's text is split into names before its tag is looked at
+                if not (c.text or '').strip():
+                    c.text = 'x_name'
+                    hit.add('null-text')
+    return hit
+
+
 def to_bytes(root):
     return b'<?xml version="1.0"?>\n' + ET.tostring(root, encoding='utf-8')
 
